@@ -1135,15 +1135,18 @@ func (r *raft) Step(m *pb.Message) error {
 		}
 
 	case m.GetTerm() < r.Term:
-		if (r.checkQuorum || r.preVote) && (m.GetType() == pb.MsgHeartbeat || m.GetType() == pb.MsgApp) {
+		if m.GetType() == pb.MsgHeartbeat || m.GetType() == pb.MsgApp {
 			// We have received messages from a leader at a lower term. It is possible
 			// that these messages were simply delayed in the network, but this could
 			// also mean that this node has advanced its term number during a network
 			// partition, and it is now unable to either win an election or to rejoin
-			// the majority on the old term. If checkQuorum is false, this will be
-			// handled by incrementing term numbers in response to MsgVote with a
-			// higher term, but if checkQuorum is true we may not advance the term on
-			// MsgVote and must generate other messages to advance the term. The net
+			// the majority on the old term. If checkQuorum is false on all nodes, this
+			// will be handled by incrementing term numbers in response to MsgVote with
+			// a higher term, but if checkQuorum is true we may not advance the term on
+			// MsgVote and must generate other messages to advance the term. Whether the
+			// sender runs with checkQuorum is not known here (the settings of the nodes
+			// may differ, e.g. while PreVote or CheckQuorum is being rolled out), so
+			// the response does not depend on the local setting. The net
 			// result of these two features is to minimize the disruption caused by
 			// nodes that have been removed from the cluster's configuration: a
 			// removed node will send MsgVotes (or MsgPreVotes) which will be ignored,
